@@ -1,0 +1,5 @@
+//go:build !verif
+
+package config
+
+func verifPoint(string) {}
